@@ -28,12 +28,12 @@ PROP = "C23"
 META = {
     "level": "exploration",
     "technique": "round-trip + exhaustive single-byte-edit / field-boundary tamper enumeration per generated value, totality fuzz under all secret forms",
-    "level_text": "Every generated signed value (both formats, str/bytes/key-dict secrets, names with separators/unicode/controls, timestamps from 1 s to 11 digits, fractional max_age) is decoded inside its validity window (must return the value), under each negative control (must return None), and under every single-byte edit at every position plus structured field-boundary moves, truncations and swaps (must return None, must not raise); arbitrary strings and bytes are decoded under every secret form (must not raise).",
+    "level_text": "Every generated signed value (both formats, str/bytes/key-dict secrets, plain str/bytes secrets combined with a key_version argument (None, 0 and non-zero up to 10**12) at signing time, names with separators/unicode/controls, timestamps from 1 s to 11 digits, fractional max_age) is decoded inside its validity window (must return the value), under each negative control (must return None), and under every single-byte edit at every position plus structured field-boundary moves, truncations and swaps (must return None, must not raise); arbitrary strings and bytes are decoded under every secret form (must not raise).",
     "level_note": "HMAC collisions are assumed not to occur by chance; strings with lone surrogates (not encodable) are executed but not judged; sub-second behaviour at the expiry boundary is not judged (integer creation times, decode times at least 1 s away from the boundary).",
     "design_ref": "DESIGN.md §4 C23",
     "engine": "oracle",
 }
-RULE = ("a case is either one valid signed value (secret form x name x value x format version x creation time x max_age) "
+RULE = ("a case is either one valid signed value (secret form x key_version x name x value x format version x creation time x max_age) "
         "together with its complete single-byte-edit family and structured tampers, or one arbitrary input string; "
         "a value case is non-trivial when its round trip succeeded and >= 100 tampered variants were judged; an "
         "arbitrary-input case is non-trivial when it is non-empty; distinct by the generating tuple")
@@ -41,7 +41,7 @@ FLOORS = {"quick": 3000, "thorough": 60000}
 ASSUMPTIONS = ["no accidental HMAC collision", "creation clock returns whole seconds",
                "names and secrets are UTF-8 encodable (no lone surrogates)"]
 REQUIRED_COUNTERS = ["oracle_evals", "roundtrip_evals", "tamper_evals", "control_evals", "totality_evals",
-                     "tamper_v1", "tamper_v2", "dict_secret_evals"]
+                     "tamper_v1", "tamper_v2", "dict_secret_evals", "plain_secret_nonzero_key_version"]
 
 for _n in ("tornado.general", "tornado.application"):
     logging.getLogger(_n).setLevel(logging.CRITICAL + 1)
@@ -51,6 +51,8 @@ NAME_CHARS = "abcxyzUSER09_-.|:= /é中\n\t"
 TS_POOL = [1, 2, 9, 10, 15, 99, 100, 268, 9999, 86400, 2678399, 2678400, 2678401, 99999999, 999999999,
            1000000000, 1234567890, 1700000000, 2147483647, 2147483648, 9999999999, 10000000000, 12345678901]
 MAD_POOL = [31, 31, 31, 1, 0.5, 0.001, 0, 365, 1 / 3, 20000, 1e6, 7.25]
+# key_version argument used together with a plain (str/bytes) secret
+PLAIN_KV = [None, None, 0, 1, 2, 3, 7, 10, 100, 4096, 2 ** 31, 10 ** 12]
 
 
 def shards(tier, seed):
@@ -85,10 +87,13 @@ def _rand_value(rng):
 
 def _rand_secret(rng):
     form = rng.choice(["str", "bytes", "dict", "dict"])
+    # A plain secret may be combined with any key_version at signing time (Application(cookie_secret="...",
+    # key_version=N) / create_signed_value(..., key_version=N)): the version is recorded in the value and the same
+    # plain secret must still decode it.
     if form == "str":
-        return form, _rand_text(rng, "abcdefgh0123é|", 0, 40), None
+        return form, _rand_text(rng, "abcdefgh0123é|", 0, 40), rng.choice(PLAIN_KV)
     if form == "bytes":
-        return form, rng.randbytes(rng.choice([0, 1, 16, 64, 100])), None
+        return form, rng.randbytes(rng.choice([0, 1, 16, 64, 100])), rng.choice(PLAIN_KV)
     keys = rng.sample([0, 1, 2, 3, 7, 10, 12, 100], rng.randint(1, 3))
     d = {k: (_rand_text(rng, "abcdefgh0123", 4, 20) + str(i) if rng.random() < 0.7 else rng.randbytes(12) + bytes([i]))
          for i, k in enumerate(keys)}
@@ -149,6 +154,11 @@ def directed_cases():
     # v2 non-ASCII name (fixes/C23-v2-nonascii-name-length)
     yield {"k": "rt", "sf": "dict", "secret": {3: "s"}, "kv": 3, "ver": 2, "name": "é", "value": "x",
            "t": 1700000000, "mad": 31, "eseed": 5}
+    # plain secret signed with a non-zero key_version: the same plain secret decodes it
+    yield {"k": "rt", "sf": "str", "secret": "s3cret", "kv": 3, "ver": 2, "name": "user", "value": b"abc",
+           "t": 1700000000, "mad": 31, "eseed": 7}
+    yield {"k": "rt", "sf": "bytes", "secret": b"k" * 16, "kv": 1, "ver": 2, "name": "n", "value": "x",
+           "t": 99, "mad": 0.5, "eseed": 8}
     # payload whose base64 ends in 0000: moving it into the timestamp is stopped only by the leading-zero check
     yield {"k": "rt", "sf": "str", "secret": "s", "kv": None, "ver": 1, "name": "n", "value": base64.b64decode("abcd12340000"),
            "t": 1700000000, "mad": 31, "eseed": 6}
@@ -385,6 +395,9 @@ def run_rt(case, ctx):
         ctx.violation(f"create/raises-{type(e).__name__}", "create_signed_value raised for a valid configuration",
                       {"exc": repr(e)[:200]})
         return
+    plain_kv = sf != "dict" and ver == 2 and bool(kv)
+    if plain_kv:
+        ctx.count("plain_secret_nonzero_key_version")
     window = mad * 86400
     inside = [t, t + int(math.floor(window))]
     if window >= 2:
@@ -400,6 +413,8 @@ def run_rt(case, ctx):
                     rt_ok = False
                     shape = "returns-None" if r is None else "wrong-value"
                     lf = "/name-contains-LF" if "\n" in name else ("/name-non-ascii" if not name.isascii() else "")
+                    if plain_kv:
+                        lf += "/plain-secret-with-key-version"
                     ctx.violation(f"roundtrip/v{ver}/{shape}{lf}",
                                   "decoding a signed value inside its validity window with the same secret and name did not return the original value",
                                   {"signed": v, "name": name, "want": want, "got": r, "t": t, "now": now, "max_age_days": mad,
